@@ -24,8 +24,11 @@ func init() {
 			"StateConfirmed is only stored where the block's Affinity was compared equal to the claimant (or, for confirmAffinity, every call is under `block Create succeeded` or that comparison); the lost-race return (errBlockClaimConflict) is dominated by deleting the claimant's pending affinity; " +
 			"(pending) getBlockFromAffinity hands a block back only if the affinity state is confirmed/legacy-empty or its own confirm write succeeded; a re-read affinity (queryAffinity) is returned as usable only under State == StateConfirmed; findOrClaimBlock only returns blocks vetted by getBlockFromAffinity; " +
 			"(empty) in releaseBlockAffinity every write is behind `!RequireEmpty || empty()`, behind the RequiredBlockSequenceNumber comparison, and behind `Affinity == nil || affinityMatches` (except the deletion of the caller's stale affinity); every block deletion in the package is guarded by empty() " +
-			"evaluated on the very pair that is deleted; every caller of releaseBlockAffinity passes RequireEmpty=true, its own bool parameter, or is the reviewed pool-wide release; reclaiming another host's block passes RequireEmpty=true and the sequence number read with the block.",
-		NotDecided: "That the datastore's CAS makes the pending→confirmed writes linearise; routing components' treatment of pending affinities (felix/confd); KDD backend's two-step delete; numeric correctness of empty().",
+			"evaluated on the very pair that is deleted; every caller of releaseBlockAffinity passes RequireEmpty=true, its own bool parameter, or is the reviewed pool-wide release; reclaiming another host's block passes RequireEmpty=true and the sequence number read with the block; " +
+			"(blockcas) the claim, re-confirm and release protocols all have the shape mark-affinity / CAS-the-block / finalise-affinity: on every path from the write that marks an affinity pending or pendingDeletion to the write that confirms it or the compare-and-delete that removes it, " +
+			"a CAS write of the block is attempted (Client.Create of a BlockKey pair, updateBlock, deleteBlock, or a helper that does so on all of its paths); a confirm with no mark in its own function (confirmAffinity) is checked from the entry of each caller. " +
+			"That block write is what makes a concurrent claimant/releaser that read the block earlier fail its own compare-and-swap.",
+		NotDecided: "That the datastore's CAS makes the pending→confirmed writes linearise; routing components' treatment of pending affinities (felix/confd); KDD backend's two-step delete; numeric correctness of empty(); that the attempted block write of the blockcas clause succeeded (claimAffineBlock confirms after a Create that failed with AlreadyExists once it has re-read the block and found its own affinity).",
 		Assumptions: []string{
 			"go/types + go/ssa (x/tools v0.50.0) model of the current source, CGO_ENABLED=0 build",
 			"Client.Create fails with AlreadyExists when the key exists; Update/DeleteKVP compare revisions (C19.cas)",
@@ -55,6 +58,10 @@ func init() {
 				Old: "if block.empty() && block.Affinity == nil {", New: "if block.Affinity == nil {", Expect: "C22.empty/delete-guard/ipamClient.releaseByHandle"},
 			{Name: "reclaim of another host's block without RequireEmpty", File: "libcalico-go/lib/ipam/ipam_block_reader_writer.go",
 				Old: "\t\t\t\tRequireEmpty: true,\n\t\t\t\t// Pass the sequence number", New: "\t\t\t\tRequireEmpty: false,\n\t\t\t\t// Pass the sequence number", Expect: "C22.empty/caller/blockReaderWriter.findUsableBlock"},
+			{Name: "re-confirming a non-confirmed affinity no longer rewrites the block", File: "libcalico-go/lib/ipam/ipam.go",
+				Old: "\t\tb, err = c.blockReaderWriter.updateBlock(ctx, b)\n\t\tif err != nil {\n\t\t\tlogCtx.WithError(err).Debug(\"Error writing block\")\n\t\t\treturn nil, err\n\t\t}\n", New: "", Expect: "C22.blockcas/confirm/ipamClient.getBlockFromAffinity"},
+			{Name: "release keeps an empty block and only drops the affinity", File: "libcalico-go/lib/ipam/ipam_block_reader_writer.go",
+				Old: "\tif b.empty() {\n\t\t// If the block is empty, we can delete it.", New: "\tif b.empty() && !opts.RequireEmpty {\n\t\tlogCtx.Debug(\"Block is empty - leave it in place for reuse\")\n\t} else if b.empty() {\n\t\t// If the block is empty, we can delete it.", Expect: "C22.blockcas/release/blockReaderWriter.releaseBlockAffinity"},
 		},
 	})
 }
@@ -215,9 +222,11 @@ func runC22(c *Ctx) {
 	c.Rule("C22.twophase", "E-FLOW/E-GUARD/E-ORDER", "affinities are created pending; claimAffineBlock gets a pending affinity; StateConfirmed stored / confirmAffinity called only under block-create success or affinity match; lost race deletes the pending affinity", 9)
 	c.Rule("C22.pending", "E-GUARD", "an affinity is used as ownership only under State==confirmed (or legacy \"\") or after the function's own successful confirm write; findOrClaimBlock returns only vetted blocks", 4)
 	c.Rule("C22.empty", "E-GUARD/E-FLOW", "releaseBlockAffinity writes are behind RequireEmpty/empty(), the sequence-number comparison and the owner check; block deletes are guarded by empty() on the deleted pair; callers pass RequireEmpty correctly", 25)
+	c.Rule("C22.blockcas", "E-ORDER", "between marking an affinity (pending / pendingDeletion write) and finalising it (confirm write / compare-and-delete of the affinity) every path attempts a CAS write of the block (Create of a BlockKey, updateBlock, deleteBlock); a confirm with no mark in the same function: every path from the function's entry (delegated to the call sites when the affinity is a parameter)", 5)
 	c22TwoPhase(c, m)
 	c22Pending(c, m)
 	c22Empty(c, m)
+	c22BlockCAS(c, m)
 }
 
 // ------------------------------------------------------------- C22.twophase --
@@ -685,5 +694,281 @@ func c22Empty(c *Ctx, m *c22Model) {
 	}
 	if nc == 0 {
 		c.Lost("no caller of releaseBlockAffinity")
+	}
+}
+
+// ------------------------------------------------------------- C22.blockcas --
+
+// c22StatePair: the pair whose Value.(*BlockAffinity).State a store writes (nil for
+// a store into a BlockAffinity literal under construction).
+func (m *c22Model) c22StatePair(st *ssa.Store) ssa.Value {
+	fa, ok := st.Addr.(*ssa.FieldAddr)
+	if !ok {
+		return nil
+	}
+	x := fa.X
+	for i := 0; i < 8 && x != nil; i++ {
+		if m.isPairPtr(x.Type()) {
+			return x
+		}
+		switch y := x.(type) {
+		case *ssa.TypeAssert:
+			x = y.X
+		case *ssa.UnOp:
+			if y.Op != token.MUL {
+				return nil
+			}
+			x = y.X
+		case *ssa.FieldAddr:
+			x = y.X
+		case *ssa.Field:
+			x = y.X
+		case *ssa.Extract:
+			x = y.Tuple
+		default:
+			return nil
+		}
+	}
+	return nil
+}
+
+// c22SamePair: two pair values denote the same datastore object: same SSA value,
+// b is (derived from) the result of the write call `via` that wrote a, or their
+// backward slices share a leaf.
+func (m *c22Model) c22SamePair(a, b ssa.Value, via ssa.Instruction) bool {
+	if a == b {
+		return true
+	}
+	la := map[ssa.Value]bool{}
+	for _, o := range origins(a, nil) {
+		la[o.V] = true
+	}
+	for _, o := range origins(b, nil) {
+		if la[o.V] {
+			return true
+		}
+		if via != nil {
+			if in, ok := o.V.(ssa.Instruction); ok && in == via {
+				return true
+			}
+		}
+	}
+	return false
+}
+
+type c22AffWrite struct {
+	ci    *ssa.Call
+	pair  ssa.Value
+	state ssa.Value // value of the latest State store (nil: none)
+	name  string
+}
+
+type c22Final struct {
+	at   *ssa.Call // the finalising call in its function
+	pair ssa.Value
+	kind string // confirm | release
+	via  string // "" or the confirmer it delegates from
+}
+
+func c22BlockCAS(c *Ctx, m *c22Model) {
+	p := m.p
+	fnUpdBlock := p.Func(c19Pkg, "blockReaderWriter.updateBlock")
+	if fnUpdBlock == nil {
+		c.Lost("%s.blockReaderWriter.updateBlock", c19Pkg)
+	}
+	// --- block CAS attempts
+	must := map[*ssa.Function]bool{}
+	busy := map[*ssa.Function]bool{}
+	var isBlockWrite func(in ssa.Instruction) bool
+	var mustWrite func(g *ssa.Function) bool
+	mustWrite = func(g *ssa.Function) bool {
+		if v, ok := must[g]; ok {
+			return v
+		}
+		if busy[g] || len(g.Blocks) == 0 {
+			return false
+		}
+		busy[g] = true
+		rets, _ := c19Forward([]c19Start{{g.Blocks[0], 0}}, isBlockWrite, nil, nil)
+		delete(busy, g)
+		must[g] = len(rets) == 0 && len(returnsOf(g)) > 0
+		return must[g]
+	}
+	isBlockWrite = func(in ssa.Instruction) bool {
+		cl, ok := in.(*ssa.Call)
+		if !ok {
+			return false
+		}
+		if c19ClientCall(cl.Common(), "Create") != "" {
+			return m.literalKeyType(cl.Common().Args[1]) == c19ModelPkg+".BlockKey"
+		}
+		sf := calleeFn(cl.Common())
+		if sf == nil {
+			return false
+		}
+		if sf == fnUpdBlock || sf == m.fnDeleteBlock {
+			return true
+		}
+		return m.inPkg(sf) && sf.Parent() == nil && mustWrite(sf)
+	}
+	// --- affinity state writes: Update of a pair whose BlockAffinity.State was stored before
+	latestState := func(at *ssa.Call, pair ssa.Value) *ssa.Store {
+		var dom []*ssa.Store
+		for _, st := range m.stateStores(at.Parent()) {
+			sp := m.c22StatePair(st)
+			if sp == nil || !instrDominates(st, at) || !m.c22SamePair(sp, pair, nil) {
+				continue
+			}
+			dom = append(dom, st)
+		}
+		for _, s := range dom {
+			last := true
+			for _, o := range dom {
+				if o != s && !instrDominates(o, s) {
+					last = false
+				}
+			}
+			if last {
+				return s
+			}
+		}
+		return nil
+	}
+	affWrites := map[*ssa.Function][]c22AffWrite{}
+	var finals []c22Final
+	for _, w := range m.writes {
+		cl, ok := w.ci.(*ssa.Call)
+		if !ok || w.prim != "Update" {
+			continue
+		}
+		pair := c19PairArg(m.c19Model, w)
+		if pair == nil {
+			continue
+		}
+		st := latestState(cl, pair)
+		if st == nil {
+			continue
+		}
+		f := cl.Parent()
+		affWrites[f] = append(affWrites[f], c22AffWrite{cl, pair, st.Val, w.name})
+		if c22IsConst(st.Val, m.confirmed) {
+			finals = append(finals, c22Final{cl, pair, "confirm", ""})
+		}
+	}
+	// the mark (non-confirmed state write of the same affinity) that most closely dominates `at`
+	markFor := func(at *ssa.Call, pair ssa.Value) *c22AffWrite {
+		var dom []*c22AffWrite
+		ws := affWrites[at.Parent()]
+		for i := range ws {
+			w := &ws[i]
+			if w.ci == at || c22IsConst(w.state, m.confirmed) || !instrDominates(w.ci, at) {
+				continue
+			}
+			if m.c22SamePair(w.pair, pair, w.ci) {
+				dom = append(dom, w)
+			}
+		}
+		for _, s := range dom {
+			last := true
+			for _, o := range dom {
+				if o != s && !instrDominates(o.ci, s.ci) {
+					last = false
+				}
+			}
+			if last {
+				return s
+			}
+		}
+		return nil
+	}
+	// compare-and-delete of an affinity that this function has marked
+	for _, w := range m.writes {
+		cl, ok := w.ci.(*ssa.Call)
+		if !ok || w.prim != "DeleteKVP" {
+			continue
+		}
+		pair := c19PairArg(m.c19Model, w)
+		if pair == nil || markFor(cl, pair) == nil {
+			continue
+		}
+		finals = append(finals, c22Final{cl, pair, "release", ""})
+	}
+	if len(finals) == 0 {
+		c.Lost("no affinity confirm write / marked affinity delete found in %s", c19Pkg)
+	}
+	nConfirm, nRelease := 0, 0
+	seen := map[*ssa.Call]bool{}
+	for i := 0; i < len(finals); i++ {
+		fin := finals[i]
+		if seen[fin.at] {
+			continue
+		}
+		seen[fin.at] = true
+		g := fin.at.Parent()
+		site := p.Pos(fin.at.Pos())
+		key := "C22.blockcas/" + fin.kind + "/" + fnName(g)
+		if fin.via != "" {
+			how := "unguarded"
+			if guardedCut(fin.at, m.blockCreateOK()) {
+				how = "after-create"
+			} else if guardedCut(fin.at, m.matchGuard()) {
+				how = "affinity-match"
+			}
+			key += "/" + how
+		}
+		mark := markFor(fin.at, fin.pair)
+		var start c19Start
+		from := "the entry of " + fnName(g)
+		if mark != nil {
+			start = c19Start{mark.ci.Block(), instrIndex(mark.ci) + 1}
+			from = fmt.Sprintf("the %s that writes the affinity with State=%s (%s)", mark.name, path(mark.state), p.Pos(mark.ci.Pos()))
+		} else {
+			start = c19Start{g.Blocks[0], 0}
+		}
+		_, hits := c19Forward([]c19Start{start}, isBlockWrite, nil, func(in ssa.Instruction) bool { return in == fin.at })
+		what := c19CalleeName(fin.at)
+		if fin.kind == "confirm" {
+			nConfirm++
+		} else {
+			nRelease++
+		}
+		if len(hits) == 0 {
+			c.Ok(key, site, "every path from %s to this %s (%s) attempts a CAS write of the block", from, what, fin.kind)
+			continue
+		}
+		// delegate: a confirm on a parameter with no mark of its own is the callers' obligation
+		if mark == nil && fin.kind == "confirm" && g.Parent() == nil && !m.valueUse[g] && !c19Exported(g) && len(m.callSites[g]) > 0 {
+			idx := -1
+			for _, o := range origins(fin.pair, nil) {
+				par, ok := o.V.(*ssa.Parameter)
+				if !ok || par.Parent() != g {
+					idx = -1
+					break
+				}
+				idx = c19ParamIndex(par)
+			}
+			if idx >= 0 {
+				c.Ok(key, site, "%s confirms its parameter %s without touching the block; the obligation moves to its %d call site(s)", fnName(g), g.Params[idx].Name(), len(m.callSites[g]))
+				for _, ci := range m.callSites[g] {
+					if cl, ok := ci.(*ssa.Call); ok {
+						finals = append(finals, c22Final{cl, cl.Common().Args[idx], "confirm", fnName(g)})
+					} else {
+						c.Violate(key+"/async", p.Pos(ci.Pos()), "%s is started with go/defer: its order relative to the block write cannot be established", fnName(g))
+					}
+				}
+				continue
+			}
+		}
+		if fin.kind == "confirm" {
+			c.Violate(key, site, "in %s the affinity can be confirmed (%s) on a path from %s that never attempts a CAS write of the block: a concurrent release/claim that read the block earlier still succeeds in its compare-and-delete/update of the block after this confirm, leaving a confirmed affinity for a block that is gone or owned by someone else", fnName(g), what, from)
+		} else {
+			c.Violate(key, site, "in %s the affinity can be deleted (%s) on a path from %s that never attempts a CAS write of the block: the block keeps recording an owner whose claim has been removed, and concurrent users of the block are not invalidated", fnName(g), what, from)
+		}
+	}
+	if nConfirm == 0 {
+		c.Lost("no confirm write of an affinity recognised")
+	}
+	if nRelease == 0 {
+		c.Lost("no marked (pendingDeletion) affinity delete recognised")
 	}
 }
